@@ -1042,4 +1042,50 @@ theorem naive_shape_false :
     rw [← h1.1] at this
     simp [isData] at this
 
+/-! ### the hypotheses of the theorems above are satisfiable (concrete, non-trivial instances) -/
+
+/-- `PING` then a bare LF then more bytes: exactly `PING` is executed, then the connection is closed -/
+example (s : Server) (env : Env) (c : Nat) :
+    commandsOf (parseLoop St.init (([[[80, 73, 78, 71]]].map encodeCmd).flatten ++ LF :: [42, 49, 13, 10])) = [[[80, 73, 78, 71]]] :=
+  (isolation [[[80, 73, 78, 71]]] (LF :: [42, 49, 13, 10]) _ (by decide) (by decide) (by decide) (bare_LF none _) s env c).1
+
+/-- `abc\n` inside an array being collected -/
+example : parseLoop ⟨none, some (2, [])⟩ ([97, 98, 99] ++ LF :: [43]) = .err :: parseLoop St.init [43] :=
+  missing_CR _ [97, 98, 99] [43] (by decide) (by decide)
+
+/-- `$abc\r\n` and `*x\r\n` -/
+example : parseLoop ⟨none, none⟩ (DOLLAR :: [97, 98, 99] ++ CR :: LF :: []) = .err :: parseLoop St.init [] :=
+  header_not_numeric none DOLLAR [97, 98, 99] [] (Or.inr rfl) (by decide) (by decide)
+example : parseLoop ⟨none, none⟩ (STAR :: [120] ++ CR :: LF :: [1, 2]) = .err :: parseLoop St.init [1, 2] :=
+  header_not_numeric none STAR [120] [1, 2] (Or.inl rfl) (by decide) (by decide)
+
+/-- `$536870913\r\n` (one above the limit), `$9223372036854775808\r\n`, `*9223372036854775808\r\n`, `$-2\r\n`, `*-1\r\n` -/
+example (rest : Bytes) : parseLoop ⟨none, none⟩ (DOLLAR :: dec 536870913 ++ CR :: LF :: rest) = .err :: parseLoop St.init rest :=
+  bulk_len_too_big none 536870913 rest (by unfold maxBulk; omega)
+example (rest : Bytes) : parseLoop ⟨none, none⟩ (DOLLAR :: dec (2^63) ++ CR :: LF :: rest) = .err :: parseLoop St.init rest :=
+  bulk_len_overflows_int64 none (2^63) rest (Nat.le_refl _)
+example (rest : Bytes) : parseLoop ⟨none, none⟩ (STAR :: dec (2^63) ++ CR :: LF :: rest) = .err :: parseLoop St.init rest :=
+  array_len_overflows_int64 none (2^63) rest (Nat.le_refl _)
+example (rest : Bytes) : parseLoop ⟨none, none⟩ (DOLLAR :: MINUS :: dec 2 ++ CR :: LF :: rest) = .err :: parseLoop St.init rest :=
+  bulk_len_negative none 2 rest (Nat.le_refl _)
+example (rest : Bytes) : parseLoop ⟨none, none⟩ (STAR :: MINUS :: dec 1 ++ CR :: LF :: rest) = .err :: parseLoop St.init rest :=
+  array_len_negative none 1 rest (Nat.le_refl _)
+
+/-- `$3\r\n` followed by `abcde\r\n`: the five bytes read are not terminated by CR LF -/
+example : parseLoop ⟨some 3, none⟩ [97, 98, 99, 100, 101, 13, 10] = .err :: parseLoop St.init [13, 10] :=
+  bulk_body_bad_terminator none 3 [97, 98, 99, 100, 101, 13, 10] (by decide) (by decide)
+
+/-- two chunkings of `*1\r\n$1\r\na\r\n` -/
+example : runChunks [[42, 49, 13], [10, 36, 49, 13, 10, 97, 13, 10]] = runChunks [[42], [49, 13, 10, 36, 49, 13, 10, 97], [13, 10]] :=
+  chunking_irrelevant _ _ (by decide)
+
+example : ArrFrame [.bulk (some [71, 69, 84]), .bulk (some [13, 10])] (encodeCmd [[71, 69, 84], [13, 10]]) :=
+  encodeCmd_is_frame _ (by decide) (by decide)
+
+/-- a frame followed by different tails is read the same way -/
+example (vs : List Val) (r r' : Bytes) (h : ArrFrame vs (encodeCmd [[71, 69, 84], [13, 10]]))
+    (e : encodeCmd [[71, 69, 84], [13, 10]] ++ r = encodeCmd [[71, 69, 84], [13, 10]] ++ r') :
+    vs = [.bulk (some [71, 69, 84]), .bulk (some [13, 10])] :=
+  (ArrFrame.unique h (encodeCmd_is_frame _ (by decide) (by decide)) e).1
+
 end C02
